@@ -27,6 +27,8 @@ package main
 //                     (function, target, kind)  kind = set | elem | delete | incdec | deref | addr | copy
 //                     target = var:pkg.name | field:pkg.Type.f | extfield:T.f | extvar:pkg.name |
 //                              deref:T | elem-of:T | elem-of-scalars:T
+//   schema_prelude    what SchemaCache.Schema does before sc.mu.Lock() besides hook points (calls, field reads)
+//   go_stmts          lock-free or locked functions that start a goroutine
 //   lf_dyncalls       calls through function values made by lock-free functions
 //   lf_ext_pkgs       packages outside the analysed set that lock-free functions call into
 //   lk_written_lf_read  shared fields written by a locked function and read by a lock-free one
@@ -115,6 +117,7 @@ type census struct {
 	freads   map[string]map[string]bool // fn -> fields read
 	shared   map[string]bool            // shared named types (pkg.Type)
 	extTypes map[string]bool
+	goStmts  map[string]bool            // functions that start a goroutine
 }
 
 func shortName(p *types.Package) string {
@@ -154,7 +157,7 @@ func loadCensus(repo string) (*census, error) {
 		fnDecl: map[string]*ast.FuncDecl{}, fnPkg: map[string]*apkg{}, fieldName: map[*types.Var]string{}, genVar: map[*types.Var]bool{},
 		edges: map[string]map[string]bool{}, dyn: map[string]map[string]bool{}, ext: map[string]map[string]bool{},
 		writes: map[[3]string]bool{}, fwrites: map[string]map[string]bool{}, freads: map[string]map[string]bool{},
-		shared: map[string]bool{}, extTypes: map[string]bool{}}
+		shared: map[string]bool{}, extTypes: map[string]bool{}, goStmts: map[string]bool{}}
 	lookup := func(path string) (io.ReadCloser, error) {
 		f, ok := exports[path]
 		if !ok || f == "" {
@@ -559,6 +562,8 @@ func (c *census) scanBody(a *apkg, fn string, body ast.Node) {
 					}
 				}
 			}
+		case *ast.GoStmt:
+			c.goStmts[fn] = true
 		case *ast.IncDecStmt:
 			markWrite(x.X, "incdec")
 		case *ast.RangeStmt:
@@ -813,6 +818,65 @@ func coqTriples(rows [][3]string, boolThird bool) string {
 
 const schemaFn = "j5schema.SchemaCache.Schema"
 
+// schemaPrelude inspects the body of SchemaCache.Schema: the statements before the first
+// <recv>.mu.Lock() may only be hook points; it returns everything else found there (calls,
+// field reads) and whether the statement right after the Lock is `defer <recv>.mu.Unlock()`.
+func (c *census) schemaPrelude() (prelude []string, lockThenDefer bool) {
+	d, ok := c.fnDecl[schemaFn]
+	if !ok || d.Body == nil {
+		return []string{"<no Schema method>"}, false
+	}
+	a := c.fnPkg[schemaFn]
+	isMu := func(call *ast.CallExpr, op string) bool {
+		sel, ok := call.Fun.(*ast.SelectorExpr)
+		if !ok || sel.Sel.Name != op {
+			return false
+		}
+		inner, ok := sel.X.(*ast.SelectorExpr)
+		return ok && inner.Sel.Name == "mu"
+	}
+	for i, st := range d.Body.List {
+		if es, ok := st.(*ast.ExprStmt); ok {
+			if call, ok := es.X.(*ast.CallExpr); ok {
+				if isMu(call, "Lock") {
+					if i+1 < len(d.Body.List) {
+						if ds, ok := d.Body.List[i+1].(*ast.DeferStmt); ok && isMu(ds.Call, "Unlock") {
+							lockThenDefer = true
+						}
+					}
+					return prelude, lockThenDefer
+				}
+				if sel, ok := call.Fun.(*ast.SelectorExpr); ok && sel.Sel.Name == "At" {
+					if id, ok := sel.X.(*ast.Ident); ok && id.Name == "verifhook" {
+						continue
+					}
+				}
+			}
+		}
+		// anything else before the lock: list what it calls and reads
+		found := false
+		ast.Inspect(st, func(n ast.Node) bool {
+			switch x := n.(type) {
+			case *ast.CallExpr:
+				prelude = append(prelude, "call:"+c.typeStr(a.info.TypeOf(x.Fun)))
+				found = true
+			case *ast.SelectorExpr:
+				if sel, ok := a.info.Selections[x]; ok && sel.Kind() == types.FieldVal {
+					if name, known := c.fieldName[sel.Obj().(*types.Var).Origin()]; known {
+						prelude = append(prelude, "field:"+name)
+						found = true
+					}
+				}
+			}
+			return true
+		})
+		if !found {
+			prelude = append(prelude, fmt.Sprintf("stmt:%T", st))
+		}
+	}
+	return append(prelude, "<no Lock>"), false
+}
+
 func genConcState(repo string) (string, error) {
 	c, err := loadCensus(repo)
 	if err != nil {
@@ -910,6 +974,18 @@ func genConcState(repo string) (string, error) {
 	}
 	sort.Strings(callers)
 	fmt.Fprintf(&sb, "Definition schema_callers : list string := %s.\n", coqList(callers))
+	prelude, ltd := c.schemaPrelude()
+	fmt.Fprintf(&sb, "(* SchemaCache.Schema: what stands before sc.mu.Lock() besides hook points; is the Lock followed at once by defer Unlock *)\n")
+	fmt.Fprintf(&sb, "Definition schema_prelude : list string := %s.\n", coqList(prelude))
+	fmt.Fprintf(&sb, "Definition schema_lock_then_defer_unlock : bool := %v.\n", ltd)
+	var gos []string
+	for k := range c.goStmts {
+		if lf[k] || lk[k] {
+			gos = append(gos, k)
+		}
+	}
+	sort.Strings(gos)
+	fmt.Fprintf(&sb, "(* lock-free or locked functions that start a goroutine *)\nDefinition go_stmts : list string := %s.\n", coqList(gos))
 
 	// writes: to package-level variables, to fields of shared types, through pointers, to elements of non-fresh maps/slices
 	var ws [][3]string
